@@ -206,10 +206,24 @@ Proof.
 Qed.
 
 (* ---------- the simulated scans of _recover stay inside the tables ---------- *)
-Lemma recover_sim_nocrash f : forall st look, st < nst ->
-  recover_sim tb f (Z.of_nat st) look <> SimCrash.
+Definition valid_state (z : Z) : Prop := exists st, z = Z.of_nat st /\ st < nst.
+
+Lemma Forall_skipn' {A} (P : A -> Prop) n : forall l, Forall P l -> Forall P (skipn n l).
 Proof.
-  induction f as [|f IH]; intros st look Hst; cbn [recover_sim]; [discriminate|].
+  induction n as [|n IH]; intros l H; simpl; auto. destruct H; auto.
+Qed.
+
+Lemma valid_items_states cs : Forall valid_item cs -> Forall valid_state (map i_state cs).
+Proof.
+  induction 1 as [|it cs (st & Hst & Hlt) H IH]; simpl; constructor; auto. exists st. auto.
+Qed.
+
+Lemma recover_sim_nocrash f : forall states look, states <> [] -> Forall valid_state states ->
+  recover_sim tb f states look <> SimCrash.
+Proof.
+  induction f as [|f IH]; intros states look Hne Hv; cbn [recover_sim]; [discriminate|].
+  destruct states as [|state st0]; [congruence|].
+  pose proof Hv as Hv0. inversion Hv0 as [|? ? (st & -> & Hst) Hv']; subst.
   pose proof (val_action_find g tb c nterm Hval st ERROR Hst) as Hf.
   destruct (find (t_actions tb) (Z.of_nat st) ERROR) as [action| |]; [|discriminate|destruct Hf].
   destruct Hf as [_ Hj]. unfold decode_action in Hj. change (Z.to_nat ERROR) with 1 in Hj.
@@ -218,38 +232,53 @@ Proof.
     assert (E1 : (action =? accept_code)%Z = false) by (apply Z.eqb_neq; unfold accept_code; lia).
     assert (E2 : (action >=? 0)%Z = false) by (rewrite Z.geb_leb; apply Z.leb_gt; lia).
     rewrite E1, E2 in Hj. inversion Hj as [|p pr Hp0 Hp Hi|]; subst.
-    destruct (val_arrays g tb c nterm Hval _ pr Hp) as [Hr _].
-    rewrite Z2Nat.id in Hr by lia. rewrite Hr.
-    pose proof (val_goto_find g tb c nterm Hval st (Z.of_nat (lhs pr)) Hst) as Hg.
-    destruct (find (t_goto tb) (Z.of_nat st) (Z.of_nat (lhs pr))) as [st'| |].
-    + destruct Hg as (_ & H0 & Hlt & _). rewrite <- (Z2Nat.id st') by lia. apply IH. exact Hlt.
-    + apply (IH 0). apply (val_nstates g tb c nterm Hval).
+    destruct (val_arrays g tb c nterm Hval _ pr Hp) as [Hr Htc].
+    rewrite Z2Nat.id in Hr, Htc by lia. rewrite Hr, Htc.
+    assert (E3 : (Z.of_nat (length (rhs pr)) <? 0)%Z = false) by (apply Z.ltb_ge; lia). rewrite E3.
+    destruct (Z.of_nat (length (Z.of_nat st :: st0)) <=? Z.of_nat (length (rhs pr)))%Z eqn:E4; [discriminate|].
+    apply Z.leb_gt in E4. rewrite Nat2Z.id.
+    pose proof (Forall_skipn' valid_state (length (rhs pr)) _ Hv) as Hvr.
+    pose proof (skipn_length (length (rhs pr)) (Z.of_nat st :: st0)) as Hlen.
+    destruct (skipn (length (rhs pr)) (Z.of_nat st :: st0)) as [|exposed rest].
+    { cbn [length] in Hlen, E4. lia. }
+    inversion Hvr as [|? ? (ex & -> & Hex) Hvrest]; subst.
+    pose proof (val_goto_find g tb c nterm Hval ex (Z.of_nat (lhs pr)) Hex) as Hg.
+    destruct (find (t_goto tb) (Z.of_nat ex) (Z.of_nat (lhs pr))) as [st'| |].
+    + destruct Hg as (_ & H0 & Hlt & _). apply IH; [discriminate|]. constructor; auto.
+      exists (Z.to_nat st'). split; auto. rewrite Z2Nat.id; lia.
+    + apply IH; [discriminate|]. constructor; auto. exists 0. split; auto.
+      apply (val_nstates g tb c nterm Hval).
     + destruct Hg.
   - apply Z.ltb_ge in E.
     destruct (action =? accept_code)%Z eqn:E1.
     + inversion Hj as [| |He Hi]. unfold eof in He. discriminate.
     + assert (E2 : (action >=? 0)%Z = true) by (rewrite Z.geb_leb; apply Z.leb_le; lia).
-      rewrite E2 in Hj. inversion Hj as [s' Hne Hs' Hpast| |]; subst.
+      rewrite E2 in Hj. inversion Hj as [s' Hne' Hs' Hpast| |]; subst.
       pose proof (val_action_find g tb c nterm Hval (Z.to_nat action) look Hs') as Hf2.
       rewrite Z2Nat.id in Hf2 by lia.
       destruct (find (t_actions tb) action look); [discriminate|discriminate|destruct Hf2].
 Qed.
 
-Lemma recover_pops_spec f look : forall cs, Forall valid_item cs ->
-  match recover_pops tb f cs look with
-  | (None, true) => False
-  | (Some (Some st'), _) => exists n, n < length cs /\ st' = skipn n cs
-  | _ => True
+Lemma recover_pops_spec f look : forall cs e, Forall valid_item cs ->
+  match recover_pops tb f cs look e with
+  | PCrash => False
+  | PFound st' e' => (exists n, n < length cs /\ st' = skipn n cs) /\ (tokish e -> tokish e')
+  | PExhausted e' => tokish e -> tokish e'
+  | PFuel => True
   end.
 Proof.
-  induction cs as [|top cs IH]; intros Hv; cbn [recover_pops]; auto.
-  inversion Hv as [|? ? (st & Hst & Hlt) Hv']; subst.
-  destruct (recover_sim tb f (i_state top) look) eqn:E.
-  - exists 0. simpl. split; [lia|reflexivity].
-  - specialize (IH Hv').
-    destruct (recover_pops tb f cs look) as [[[st'|]|] [|]]; auto;
-      destruct IH as (n & Hn & ->); exists (S n); simpl; split; auto; lia.
-  - rewrite Hst in E. exfalso. eapply recover_sim_nocrash; eauto.
+  clear discard.
+  induction cs as [|top cs IH]; intros e Hv; cbn [recover_pops]; auto.
+  inversion Hv as [|? ? Htop Hv']; subst.
+  destruct (recover_sim tb f (map i_state (top :: cs)) look) eqn:E.
+  - split; auto. exists 0. simpl. split; [lia|reflexivity].
+  - specialize (IH (match i_sym top with VErr _ _ => i_sym top | _ => e end) Hv').
+    assert (Ht : tokish e -> tokish (match i_sym top with VErr _ _ => i_sym top | _ => e end)).
+    { intros He. destruct (i_sym top); auto. exact I. }
+    destruct (recover_pops tb f cs look _) as [st' e'|e'| |]; auto.
+    destruct IH as [(n & Hn & ->) Hte]. split; auto. exists (S n). simpl. split; auto. lia.
+  - exfalso. apply (recover_sim_nocrash f (map i_state (top :: cs)) look);
+      [simpl; discriminate|apply valid_items_states; exact Hv|exact E].
   - exact I.
 Qed.
 
